@@ -166,9 +166,13 @@ def fixed_cases(draw):
         else:
             binsize = draw(st.one_of(st.sampled_from(NICE_STEPS), st.floats(0.01, 100.0),
                                      st.integers(1, 40).map(lambda k, s=span: s / k if s > 0 else 1.0)))
+        if not binsize > 0:
+            binsize = 1.0           # span/k underflowed (subnormal span): the statement needs binsize > 0
         cap = 2000.0 if draw(st.integers(0, 100)) == 0 else 50.0
         if span > 0 and span / binsize > cap:
             binsize = span / draw(st.integers(1, 40))
+            if not binsize > 0:
+                binsize = 1.0
     entry = draw(st.sampled_from(["binner", "binner", "binner-late", "histogram"]))
     y = w = None
     wkind = "none"
@@ -368,7 +372,7 @@ def check_fixed(case, ctx):
         require(pref + key in b, "key %r missing", pref + key)
         got = np.asarray(b[pref + key])
         require(got.shape == (nbin,), "%r has shape %r", pref + key, got.shape)
-        bad = np.abs(got.astype(LD) - exp) > 1e-12 * escale
+        bad = np.abs(got.astype(LD) - exp) > 1e-12 * escale + ABS_FLOOR      # (subnormal edges: half a bin rounds)
         require(not bad.any(), "%s[%d]=%r, expected min+i*binsize -> %r", pref + key,
                 int(np.argmax(bad)), got[int(np.argmax(bad))], float(exp[int(np.argmax(bad))]))
     # members
